@@ -46,7 +46,10 @@ THEOREMS = ["ForecastIter.refines_spec", "ForecastIter.refines_spec_list", "Fore
             "ForecastIter.two_pass_evaluations_see_one_forecast", "ForecastIter.refines_spec_cfg",
             "ForecastIter.cfg_filters_exactly_once", "ForecastIter.filter_order_irrelevant",
             "ForecastIter.filtered_absCat", "ForecastIter.aborted_pass_characterised",
-            "ForecastIter.list_wrong_ncat_always_fails"]
+            "ForecastIter.list_wrong_ncat_always_fails",
+            # phase 2
+            "ForecastIter.shared_session_refines_spec", "ForecastIter.step_list_fields",
+            "ForecastIter.inv_catalogs_replaced"]
 TRUSTED = ["Lean 4.33 kernel", "axioms: propext, Classical.choice, Quot.sound at most",
            "Catalog.filter(statements) / filter_spatial(region) keep exactly the satisfying events, in place, and are "
            "idempotent (C04); spatial_magnitude_counts counts every event once in its bin (C03); load_ascii_catalogs "
@@ -70,6 +73,12 @@ RULE = ("forecasts of 1..6 catalogs (0..4 events each, empty catalogs written as
         "catalogs; apply_mct on/off with a mainshock event, events before the mainshock, inside the incompleteness "
         "window (small and large magnitudes) and after the critical time, crossed with the magnitude statement and the "
         "spatial filter (model: raw events with one flag per configured filter, c13_runcfg). "
+        "Phase 2: MLL_magnitude_test(full_calculation=True) as operation TLF; evaluations with seed= and with seed=None "
+        "under a harness-seeded global stream, verbose on/off; UCERF3-ETAS stochastic event sets written by the harness "
+        "(.gz and .bin, file versions 1-3, format native/csep, store on/off); sessions of two forecasts sharing region, "
+        "observation, file or the very catalog objects with interleaved operations (model: runShared); catalogs handed "
+        "out by earlier passes re-inspected at the end of the history; NaN depths, an event at epoch 0; catalogs with "
+        "more than 2^16 events and bins holding more than 65535 events. "
         "A history is non-trivial when it has >= 2 operations; distinct by (configuration, variant, catalogs, ops)")
 
 # sub-classes on which the UNCHANGED library does not behave as one would wish and for which a decision is pending:
@@ -79,15 +88,13 @@ AWAITING_DECISION = [
     # region): the catalog spatial / magnitude tests bin the re-created catalogs on THEIR region (IndexError /
     # ValueError / silently other numbers); passes, counts, n_cat and expected rates are right and are checked
     "loader-nostore:region-not-bound-by-loader:catalog-tests",
-    # GENUINE-DEFECT CANDIDATE (round 4): Catalog.apply_mct reads times[0] of an EMPTY catalog (IndexError), so a forecast
-    # with apply_filters=True, apply_mct=True cannot be iterated when a catalog is empty or emptied by the magnitude
-    # statement. While the entry is listed, the apply_mct generator keeps one event per catalog that reaches apply_mct.
-    "apply_mct:empty-catalog-reaches-apply_mct",
+    # ("apply_mct:empty-catalog-reaches-apply_mct" was repaired in /repo: D37, cafbaf1 — apply_mct on a catalog without
+    #  events returns self; empty catalogs now reach apply_mct freely, corpus/C13/d37_apply_mct_empty_catalog.json)
 ]
 
 OPS = ["P", "E", "R", "S", "M"]
 TESTS = ["N", "TS", "TM"]
-TESTS4 = ["TP", "TR", "TL"]      # round 4: pseudolikelihood (rates + 1 pass), resampled / MLL magnitude test (rates + 2 passes)
+TESTS4 = ["TP", "TR", "TL", "TLF"]      # round 4 (TLF, phase 2: full_calculation=True): pseudolikelihood (rates + 1 pass), resampled / MLL magnitude test (rates + 2 passes)
 ALL_TESTS = TESTS + TESTS4
 TEST_SEED = 20240607
 # apply_mct: mainshock M8.4 ten days after the first generated event time; an event's time class is
@@ -190,7 +197,12 @@ def event_row(case, ci, ei, ev, origins):
     else:
         lon, lat = float(origins[cell][0]) + 0.05, float(origins[cell][1]) + 0.05
     t = 1262304000000 + 1000 * (100 * ci + ei) + MCT_OFFSETS[tclass_of(ev)]   # 2010-01-01 + seconds
-    return (f"c{ci}e{ei}", t, lat, lon, 10.0, float(mag))
+    depth = 10.0
+    if case.get("zero_time") and ci == 0 and ei == 0 and tclass_of(ev) == 0:
+        t = 0                     # the instant 1970-01-01T00:00:00 (epoch 0 is falsy)
+    if case.get("nan_depth") and ei % 2 == 1:
+        depth = float("nan")      # unreported depth
+    return (f"c{ci}e{ei}", t, lat, lon, depth, float(mag))
 
 
 def tclass_of(ev):
@@ -266,11 +278,40 @@ def make_catalogs(case, origins, bound_region, filters):
     return [one(ci) for ci in range(len(case["cats"]))]
 
 
-def build_forecast(case, tmpdir):
-    """the forecast under test + the generation table {event_id: (keep, bin, row)}"""
+def write_u3(path, case, origins):
+    """a UCERF3-ETAS stochastic event set (merged binary format, file version 1..3, plain or gzip-compressed)"""
+    import gzip
+    from csep.core.catalogs import UCERF3Catalog
+    version = int(case.get("u3_version", 1))
+    evd = UCERF3Catalog._get_catalog_dtype(version)
+    hd = UCERF3Catalog._get_header_dtype(version)
+    opener = gzip.open if path.endswith(".gz") else open
+    with opener(path, "wb") as f:
+        f.write(numpy.array([len(case["cats"])], dtype=">i4").tobytes())
+        for ci, evs in enumerate(case["cats"]):
+            f.write(numpy.array([version], dtype=">i2").tobytes())
+            h = numpy.zeros(1, dtype=hd)
+            h["catalog_size"] = len(evs)
+            f.write(h.tobytes())
+            a = numpy.zeros(len(evs), dtype=evd)
+            for ei, ev in enumerate(evs):
+                _eid, t, lat, lon, depth, mag = event_row(case, ci, ei, ev, origins)
+                a[ei]["rupture_id"], a[ei]["parent_id"], a[ei]["generation"] = 100 * ci + ei, -1, ei % 3
+                a[ei]["origin_time"], a[ei]["latitude"], a[ei]["longitude"] = t, lat, lon
+                a[ei]["depth"], a[ei]["magnitude"] = depth, mag
+            f.write(a.tobytes())
+
+
+U3_SOURCES = ["u3gz-store", "u3gz-nostore", "u3bin-store", "u3bin-nostore"]
+
+
+def build_forecast(case, tmpdir, region=None, cats=None):
+    """the forecast under test + the generation table {event_id: (keep, bin, row)}; `region`: a region object shared
+    with other forecasts of a session"""
     from csep import load_catalog_forecast
     from csep.core.forecasts import CatalogForecast
-    region, origins = make_region(case["nx"], case["ny"])
+    region0, origins = make_region(case["nx"], case["ny"])
+    region = region if region is not None else region0
     filters = [f"magnitude >= {MAG_CUT}"] if case["mag_filter"] else []
     table = {}
     for ci, evs in enumerate(case["cats"]):
@@ -280,6 +321,7 @@ def build_forecast(case, tmpdir):
             # a property of the event whether or not apply_filters is on)
             shown = keep_of(dict(case, apply_filters=True), ev) if case.get("round4") else keep_of(case, ev)
             table[row[0]] = (keep_of(case, ev), bin_of(case, ev), row, shown)
+    table["@by_time"] = {v[2][1]: k for k, v in table.items()}
     kw = dict(region=region, filters=filters, filter_spatial=case["filter_spatial"], apply_filters=case["apply_filters"],
               name="f")
     if case.get("mct"):
@@ -298,8 +340,9 @@ def build_forecast(case, tmpdir):
             # the catalogs went through another forecast (other region) before: its get_expected_rates bound them
             cats = make_catalogs(case, origins, None, filters)
             CatalogForecast(catalogs=cats, region=foreign, name="other").get_expected_rates()
-        else:
+        elif cats is None:
             cats = make_catalogs(case, origins, foreign, filters)
+        table["@cats"] = cats
         if src == "list-ncat":
             kw["n_cat"] = case.get("ncat_wrong", len(cats))
         fore = CatalogForecast(catalogs=cats, **kw)
@@ -315,8 +358,18 @@ def build_forecast(case, tmpdir):
             fore = CatalogForecast(catalogs=loader(region=region), **kw)
         else:
             fore = CatalogForecast(loader=loader, filename="in-memory simulation", store=(src == "loader-store"), **kw)
+    elif src in U3_SOURCES:
+        key = json.dumps([case["cats"], case["nx"], case["ny"], case.get("u3_version", 1), case.get("nan_depth"),
+                          case.get("zero_time")])
+        ext = "gz" if src.startswith("u3gz") else "bin"
+        path = os.path.join(tmpdir, f"u3_{hashlib.sha1(key.encode()).hexdigest()}.{ext}")
+        if not os.path.exists(path):
+            write_u3(path, case, origins)
+        fore = load_catalog_forecast(path, type="ucerf3", format=case.get("u3_format", "native"),
+                                     store=src.endswith("-store"), **kw)
     else:
-        key = json.dumps([case["cats"], case["placeholders"], case["nx"], case["ny"]])
+        key = json.dumps([case["cats"], case["placeholders"], case["nx"], case["ny"], case.get("nan_depth"),
+                          case.get("zero_time")])
         path = os.path.join(tmpdir, f"fore_{hashlib.sha1(key.encode()).hexdigest()}.csv")
         if not os.path.exists(path):
             write_csv(path, case, origins)
@@ -350,145 +403,234 @@ def make_obs(case, region, origins):
 
 # ----------------------------------------------------------------------------- one history
 def canon_cat(cat, table):
-    ids = [e.decode() if isinstance(e, bytes) else str(e) for e in cat.get_event_ids()]
-    return ids
+    """the generated event ids of a yielded catalog, in order. Catalog classes without an id column (UCERF3) are read
+    through their origin times, which are unique per generated event; an event that was never generated shows up as
+    `?<time>`"""
+    data = cat.catalog
+    names = data.dtype.names or ()
+    if "id" in names and not table.get("@by_time_only"):
+        return [e.decode() if isinstance(e, bytes) else str(e) for e in cat.get_event_ids()]
+    by_time = table["@by_time"]
+    return [by_time.get(int(t), f"?{int(t)}") for t in cat.get_epoch_times()]
 
 
-def run_history(run, case, tmpdir, drv=None, pending=None, record=True):
-    """execute the operations on the real forecast; returns list of canonical outputs; feeds oracle failures"""
-    from csep.core import catalog_evaluations as ce
-    fore, table, region, origins = build_forecast(case, tmpdir)
-    ref = reference(case)
-    n = len(ref)
-    exp_ids = cat_ids(case)
-    ref_ids = [[eid for eid, _ in cat] for cat in ref]
-    ref_counts = [len(c) for c in ref]
-    tot = ref_totals(case, ref)
-    nb = len(tot)
-    nm = len(MAGS)
-    outs, fails = [], []
-    first_rates, first_rates_vals = None, None
-    obs = None
-    ref_results = {}
+def same_float(a, b):
+    a, b = float(a), float(b)
+    return a == b or (a != a and b != b)
 
-    def fail(msg):
-        fails.append(msg)
 
-    def check_rates_matrix(arr, k):
+class Hist:
+    """one forecast under test + everything the oracle remembers about it; `step` executes one operation"""
+
+    def __init__(self, run, case, tmpdir, region=None, obs=None, label="", cats=None):
+        self.run, self.case, self.tmpdir, self.label = run, case, tmpdir, label
+        self.fore, self.table, self.region, self.origins = build_forecast(case, tmpdir, region=region, cats=cats)
+        self.ref = reference(case)
+        self.n = len(self.ref)
+        self.exp_ids = cat_ids(case)
+        self.ref_ids = [[eid for eid, _ in cat] for cat in self.ref]
+        self.ref_counts = [len(c) for c in self.ref]
+        self.tot = ref_totals(case, self.ref)
+        self.outs, self.fails = [], []
+        self.first_rates, self.first_rates_vals = None, None
+        self.obs = obs
+        self.ref_results = {}
+        self.handed_out = []          # (catalog object, event ids when it was yielded, op index)
+        self.verbose = bool(case.get("verbose"))
+
+    def fail(self, msg):
+        self.fails.append(self.label + msg)
+
+    def ncat_tok(self):
+        try:
+            v = self.fore.n_cat
+            return "none" if v is None else str(int(v))
+        except Exception as e:                      # noqa: a deviating type of n_cat is an output, not a crash
+            return f"bad-n_cat:{type(e).__name__}"
+
+    def check_rates_matrix(self, arr, k):
+        n, tot = self.n, self.tot
         arr = numpy.asarray(arr, dtype=float).ravel()
         ks = []
         for j, v in enumerate(arr):
-            kk = int(round(float(v) * n))
+            kk = int(round(float(v) * n)) if numpy.isfinite(v) else -1
             ks.append(kk)
             if float(v) != kk / n:
-                fail(f"op {k}: expected rate {float(v)!r} in bin {j} is not an exact mean k/{n}")
+                self.fail(f"op {k}: expected rate {float(v)!r} in bin {j} is not an exact mean k/{n}")
         if ks != tot:
-            fail(f"op {k}: expected-rate totals {ks} differ from the per-bin totals of the filtered catalogs {tot}")
+            self.fail(f"op {k}: expected-rate totals {ks} differ from the per-bin totals of the filtered catalogs {tot}")
         return ks
 
-    def check_marginal(arr, expect, k, what):
+    def check_marginal(self, arr, expect, k, what):
+        n = self.n
         arr = numpy.asarray(arr, dtype=float).ravel()
-        ks = [int(round(float(v) * n)) for v in arr]
-        if len(arr) != len(expect) or any(abs(float(v) - e / n) > 1e-12 for v, e in zip(arr, expect)):
-            fail(f"op {k}: {what} {list(map(float, arr))} differ from {expect}/{n}")
+        ks = [int(round(float(v) * n)) if numpy.isfinite(v) else -1 for v in arr]
+        if len(arr) != len(expect) or any(not abs(float(v) - e / n) <= 1e-12 for v, e in zip(arr, expect)):
+            self.fail(f"op {k}: {what} {list(map(float, arr))} differ from {expect}/{n}")
         return ks
 
-    for k, op in enumerate(case["ops"]):
+    def check_pass(self, cats, k):
+        table = self.table
+        got_ids = [int(c.catalog_id) if c.catalog_id is not None else None for c in cats]
+        got_ev = [canon_cat(c, table) for c in cats]
+        if got_ids != self.exp_ids:
+            self.fail(f"op {k}: pass yields {len(got_ids)} catalogs with ids {got_ids}, the forecast has "
+                      f"{self.n} catalogs with ids {self.exp_ids}")
+        if got_ev != self.ref_ids:
+            self.fail(f"op {k}: pass yields events {got_ev}, the once-filtered catalogs are {self.ref_ids}")
+        for c, evs in zip(cats, got_ev):   # event tuples untouched
+            data = c.catalog
+            for eid, row in zip(evs, data):
+                g = table.get(eid)
+                if g is None or int(row["origin_time"]) != g[2][1] or not (
+                        same_float(row["latitude"], g[2][2]) and same_float(row["longitude"], g[2][3])
+                        and same_float(row["depth"], g[2][4]) and same_float(row["magnitude"], g[2][5])):
+                    self.fail(f"op {k}: event {eid} was altered")
+            self.handed_out.append((c, list(evs), k))
+        return got_ids, got_ev
+
+    def step(self, k, op):
+        """execute operation `op` (index k of this forecast's history); False = the history ends here"""
+        from csep.core import catalog_evaluations as ce
+        fore, table, case, run = self.fore, self.table, self.case, self.run
+        n, tot, nm = self.n, self.tot, len(MAGS)
+        nb = len(tot)
+        outs = self.outs
         try:
-            if op in ("P",) or op in ALL_TESTS:
-                if op == "P":
-                    cats = [c for c in fore]
-                    got_ids = [int(c.catalog_id) if c.catalog_id is not None else None for c in cats]
-                    got_ev = [canon_cat(c, table) for c in cats]
-                    if got_ids != exp_ids:
-                        fail(f"op {k}: pass yields {len(got_ids)} catalogs with ids {got_ids}, the forecast has "
-                             f"{n} catalogs with ids {exp_ids}")
-                    if got_ev != ref_ids:
-                        fail(f"op {k}: pass yields events {got_ev}, the once-filtered catalogs are {ref_ids}")
-                    for c in cats:   # event tuples untouched
-                        for row in c.data:
-                            eid = row["id"].decode() if isinstance(row["id"], bytes) else str(row["id"])
-                            g = table.get(eid)
-                            if g is None or (int(row["origin_time"]), float(row["latitude"]), float(row["longitude"]),
-                                             float(row["magnitude"])) != (g[2][1], g[2][2], g[2][3], g[2][5]):
-                                fail(f"op {k}: event {eid} was altered")
-                    outs.append("c" + (";".join(
-                        f"{'none' if i is None else i}=" + (",".join(f"{1 if table[e][3] else 0}:{table[e][1]}" for e in evs) if evs else "-")
-                        for i, evs in zip(got_ids, got_ev)) if cats else "-"))
-                else:
-                    if obs is None:
-                        obs = make_obs(case, region, origins)
-                    fn, fkw = test_fn(ce, op)
-                    try:
-                        with contextlib.redirect_stdout(io.StringIO()), numpy.errstate(all="ignore"):
-                            res = fn(fore, obs, verbose=False, **fkw)
-                        key = result_key(res)
-                    except Exception as e:
-                        if op not in TESTS4:
-                            raise
-                        # the evaluation itself rejects the forecast (e.g. no event at all: NaN probabilities). That is
-                        # C10's business as long as a fresh forecast of the once-filtered catalogs is rejected alike;
-                        # the history ends here (the evaluation left its pass unfinished: known finding D27)
-                        key = ("exc", type(e).__name__)
-                    if op not in ref_results:
-                        ref_results[op] = reference_result(case, op, tmpdir)
-                    if not same_result(key, ref_results[op]):
-                        fail(f"op {k}: {fn.__name__} on the used forecast gives {key}, on a fresh forecast of the "
-                             f"once-filtered catalogs {ref_results[op]}")
-                    if key[0] == "exc":
-                        run.count("evaluation rejects the forecast (fresh forecast alike)")
-                        outs.append(f"x@{fore.n_cat if fore.n_cat is not None else 'none'}")
-                        break
-                    outs.append("t")
+            if op == "P":
+                cats = [c for c in fore]
+                got_ids, got_ev = self.check_pass(cats, k)
+                outs.append("c" + (";".join(
+                    f"{'none' if i is None else i}=" + (",".join(
+                        (f"{1 if table[e][3] else 0}:{table[e][1]}" if e in table else "?") for e in evs) if evs else "-")
+                    for i, evs in zip(got_ids, got_ev)) if cats else "-"))
+            elif op in ALL_TESTS:
+                if self.obs is None:
+                    self.obs = make_obs(case, self.region, self.origins)
+                fn, fkw = test_fn(ce, op, case)
+                try:
+                    with contextlib.redirect_stdout(io.StringIO()), numpy.errstate(all="ignore"):
+                        pre_seed(case)
+                        res = fn(fore, self.obs, verbose=self.verbose, **fkw)
+                    key = result_key(res)
+                except Exception as e:
+                    if op not in TESTS4:
+                        raise
+                    # the evaluation itself rejects the forecast (e.g. no event at all: NaN probabilities). That is
+                    # C10's business as long as a fresh forecast of the once-filtered catalogs is rejected alike;
+                    # the history ends here (the evaluation left its pass unfinished: known finding D27)
+                    key = ("exc", type(e).__name__)
+                if op not in self.ref_results:
+                    self.ref_results[op] = reference_result(case, op, self.tmpdir)
+                if not same_result(key, self.ref_results[op]):
+                    self.fail(f"op {k}: {fn.__name__}{fkw or ''} on the used forecast gives {key}, on a fresh forecast of the "
+                              f"once-filtered catalogs {self.ref_results[op]}")
+                if key[0] == "exc":
+                    run.count("evaluation rejects the forecast (fresh forecast alike)")
+                    outs.append(f"x@{self.ncat_tok()}")
+                    return False
+                outs.append("t")
             elif op == "E":
-                ec = [int(v) for v in fore.get_event_counts(verbose=False)]
-                if ec != ref_counts:
-                    fail(f"op {k}: get_event_counts {ec}, a single pass has {ref_counts}")
+                with contextlib.redirect_stdout(io.StringIO()):
+                    ec = [int(v) for v in numpy.asarray(fore.get_event_counts(verbose=self.verbose)).ravel()]
+                if ec != self.ref_counts:
+                    self.fail(f"op {k}: get_event_counts {ec}, a single pass has {self.ref_counts}")
                 outs.append("n" + (",".join(map(str, ec)) if ec else "-"))
             elif op == "R":
-                er = fore.get_expected_rates()
-                ks = check_rates_matrix(er.data, k)
-                if first_rates is None:
-                    first_rates, first_rates_vals = er, numpy.array(er.data, dtype=float).copy()
+                with contextlib.redirect_stdout(io.StringIO()):
+                    er = fore.get_expected_rates(verbose=self.verbose)
+                ks = self.check_rates_matrix(er.data, k)
+                if self.first_rates is None:
+                    self.first_rates, self.first_rates_vals = er, numpy.array(er.data, dtype=float).copy()
                 else:
-                    if er is not first_rates:
+                    if er is not self.first_rates:
                         run.count("expected-rates-new-object")
-                    if not numpy.array_equal(numpy.asarray(er.data, dtype=float), first_rates_vals):
-                        fail(f"op {k}: get_expected_rates returned different values than on the first request")
-                outs.append("r" + ",".join(map(str, ks)) + f"/{fore.n_cat}")
+                    if not numpy.array_equal(numpy.asarray(er.data, dtype=float), self.first_rates_vals):
+                        self.fail(f"op {k}: get_expected_rates returned different values than on the first request")
+                outs.append("r" + ",".join(map(str, ks)) + f"/{self.ncat_tok()}")
             elif op == "S":
                 sc = fore.spatial_counts()
                 exp = [sum(tot[s * nm:(s + 1) * nm]) for s in range(nb // nm)]
-                ks = check_marginal(sc, exp, k, "spatial_counts")
-                outs.append("r" + ",".join(map(str, ks)) + f"/{fore.n_cat}")
+                ks = self.check_marginal(sc, exp, k, "spatial_counts")
+                outs.append("r" + ",".join(map(str, ks)) + f"/{self.ncat_tok()}")
             elif op == "M":
                 mc = fore.magnitude_counts()
                 exp = [sum(tot[m::nm]) for m in range(nm)]
-                ks = check_marginal(mc, exp, k, "magnitude_counts")
-                outs.append("r" + ",".join(map(str, ks)) + f"/{fore.n_cat}")
-            if op in ("R", "S", "M", "TS", "TM", "TP", "TR", "TL") and first_rates is None and fore.expected_rates is not None:
-                first_rates = fore.expected_rates
-                first_rates_vals = numpy.array(first_rates.data, dtype=float).copy()
-                check_rates_matrix(first_rates.data, k)
-            if first_rates is not None and fore.expected_rates is not None and not numpy.array_equal(
-                    numpy.asarray(fore.expected_rates.data, dtype=float), first_rates_vals):
-                fail(f"op {k}: the cached expected rates changed")
+                ks = self.check_marginal(mc, exp, k, "magnitude_counts")
+                outs.append("r" + ",".join(map(str, ks)) + f"/{self.ncat_tok()}")
+            else:
+                raise ValueError(f"unknown operation {op}")
+            if op != "P" and op != "E" and op != "N" and self.first_rates is None and fore.expected_rates is not None:
+                self.first_rates = fore.expected_rates
+                self.first_rates_vals = numpy.array(self.first_rates.data, dtype=float).copy()
+                self.check_rates_matrix(self.first_rates.data, k)
+            if self.first_rates is not None and fore.expected_rates is not None and not numpy.array_equal(
+                    numpy.asarray(fore.expected_rates.data, dtype=float), self.first_rates_vals):
+                self.fail(f"op {k}: the cached expected rates changed")
         except Exception as e:
-            fail(f"op {k} ({op}) raised {type(e).__name__}: {e}")
+            self.fail(f"op {k} ({op}) raised {type(e).__name__}: {e}")
             outs.append("e")
-            outs[-1] += f"@{fore.n_cat if fore.n_cat is not None else 'none'}"
+            outs[-1] += f"@{self.ncat_tok()}"
+            return False
+        if self.ncat_tok() != str(n):
+            self.fail(f"op {k}: n_cat is {self.ncat_tok()}, the forecast has {n} catalogs")
+        outs[-1] += f"@{self.ncat_tok()}"
+        return True
+
+    def finish(self):
+        """catalogs handed out earlier still hold the events they held when they were yielded (a cache or a loader must
+        not hand out views of a buffer it re-uses); the observation and the region are as they were"""
+        for c, evs, k in self.handed_out:
+            try:
+                now = canon_cat(c, self.table)
+            except Exception as e:
+                now = f"{type(e).__name__}: {e}"
+            if now != evs:
+                self.fail(f"the catalog yielded by op {k} held events {evs}; at the end of the history the same object "
+                          f"holds {now}")
+                break
+        try:
+            mags = [float(m) for m in self.region.magnitudes]
+        except Exception as e:
+            mags = f"{type(e).__name__}"
+        if mags != [float(m) for m in MAGS]:
+            self.fail(f"the forecast's region has magnitude bins {mags} at the end of the history, {MAGS} at the start")
+        if self.obs is not None:
+            try:
+                oid = [e.decode() for e in self.obs.get_event_ids()]
+            except Exception as e:
+                oid = f"{type(e).__name__}"
+            if oid != ["o0", "o1"]:
+                self.fail(f"the observed catalog handed to the evaluations now holds {oid}")
+
+
+def run_history(run, case, tmpdir):
+    """execute the operations on the real forecast; returns list of canonical outputs and the oracle's complaints"""
+    h = Hist(run, case, tmpdir)
+    for k, op in enumerate(case["ops"]):
+        if not h.step(k, op):
             break
-        if fore.n_cat != n:
-            fail(f"op {k}: n_cat is {fore.n_cat}, the forecast has {n} catalogs")
-        outs[-1] += f"@{fore.n_cat if fore.n_cat is not None else 'none'}"
-    return outs, fails
+    h.finish()
+    return h.outs, h.fails
 
 
-def test_fn(ce, op):
-    """the catalog evaluation behind an operation letter + its extra keyword arguments"""
+def pre_seed(case):
+    """seed_mode 'global': the evaluation gets seed=None and draws from numpy's global stream, seeded here"""
+    if case.get("seed_mode") == "global":
+        numpy.random.seed(TEST_SEED)
+
+
+def test_fn(ce, op, case=None):
+    """the catalog evaluation behind an operation letter + its extra keyword arguments (TLF = the MLL test with
+    full_calculation=True; the seed is passed as argument or, seed_mode 'global', left to numpy's global stream)"""
     fn = dict(N=ce.number_test, TS=ce.spatial_test, TM=ce.magnitude_test, TP=ce.pseudolikelihood_test,
-              TR=ce.resampled_magnitude_test, TL=ce.MLL_magnitude_test)[op]
-    return fn, (dict(seed=TEST_SEED) if op in ("TR", "TL") else {})
+              TR=ce.resampled_magnitude_test, TL=ce.MLL_magnitude_test, TLF=ce.MLL_magnitude_test)[op]
+    kw = {}
+    if op in ("TR", "TL", "TLF"):
+        kw["seed"] = None if (case or {}).get("seed_mode") == "global" else TEST_SEED
+    if op == "TLF":
+        kw["full_calculation"] = True
+    return fn, kw
 
 
 def result_key(res):
@@ -510,9 +652,10 @@ def reference_result(case, op, tmpdir):
         cats.append(CSEPCatalog(data=rows, catalog_id=ci, region=region))
     fore = CatalogForecast(catalogs=cats, region=region, n_cat=len(cats), name="ref")
     obs = make_obs(case, region, origins)
-    fn, fkw = test_fn(ce, op)
+    fn, fkw = test_fn(ce, op, case)
     try:
         with contextlib.redirect_stdout(io.StringIO()), numpy.errstate(all="ignore"):
+            pre_seed(case)
             res = fn(fore, obs, verbose=False, **fkw)
     except Exception as e:
         return ("exc", type(e).__name__)
@@ -537,7 +680,7 @@ def stream_arg(case):
         return "list", "none"
     if case["source"] == "list-ncat":
         return "list", str(len(case["cats"]))
-    store = "1" if case["source"] in ("file-store", "loader-store", "gen-store") else "0"
+    store = "1" if case["source"] in ("file-store", "loader-store", "gen-store", "u3gz-store", "u3bin-store") else "0"
     if case.get("ncat_given") is not None:
         return "streamn", f"{store}:{case['ncat_given']}"
     return "stream", store
@@ -590,7 +733,7 @@ def model_line(case):
         kind, a = "list", str(len(case["cats"]))
     else:
         # streamed: file or custom loader, cached (store) or re-created on each pass; a generator object is cached
-        kind, a = "stream", "1" if case["source"] in ("file-store", "loader-store", "gen-store") else "0"
+        kind, a = "stream", "1" if case["source"] in ("file-store", "loader-store", "gen-store", "u3gz-store", "u3bin-store") else "0"
     return (f"c13_run {kind} {a} {1 if case['apply_filters'] else 0} {nb} {len(MAGS)} {cats} "
             f"{','.join(case['ops'])}")
 
@@ -624,6 +767,19 @@ def flush(run, drv, pending):
     drv.lines.clear()
     for item in pending:
         case, i, outs = item[:3]
+        if len(item) == 5 and item[3] == "session":
+            ops = item[4]
+            model = out[i].split("|")
+            impl = list(outs)
+            model = [("t@" + m.split("@")[1]) if op in ALL_TESTS and not m.startswith("e") else m
+                     for m, op in zip(model, ops)]
+            if impl and impl[-1].startswith("x"):
+                impl, model = impl[:-1], model[:len(impl) - 1]
+                if impl != model:
+                    run.mismatch(case, impl, model)
+            elif impl != model[:len(impl)] or (len(impl) < len(model) and not (impl and impl[-1].startswith("e"))):
+                run.mismatch(case, impl, model)
+            continue
         if len(item) == 4 and item[3] == "wrong-ncat":
             if out[i] != outs[0]:
                 run.mismatch(case, outs, out[i])
@@ -645,6 +801,143 @@ def flush(run, drv, pending):
         if impl != model[:len(impl)] or (len(impl) < len(model) and not impl[-1].startswith("e")):
             run.mismatch(case, impl, model)
     pending.clear()
+
+
+# ----------------------------------------------------------------------------- sessions: two forecasts, shared sub-objects
+def do_session(run, drv, pending, case, tmpdir):
+    """phase 2: two forecasts built from the same configuration share the region object, the observed catalog handed to
+    the evaluations, the forecast file (file sources) or — `share_cats`, in-memory lists — the very catalog objects;
+    their operations are interleaved (`session` = [[which, op], ...]). Each forecast on its own must satisfy the
+    specification after every step; each forecast's sub-history is compared with the model."""
+    region, origins = make_region(case["nx"], case["ny"])
+    obs = make_obs(case, region, origins)
+    h0 = Hist(run, case, tmpdir, region=region, obs=obs, label="forecast A: ")
+    cats = h0.table.get("@cats") if case.get("share_cats") else None
+    h1 = Hist(run, case, tmpdir, region=region, obs=obs, label="forecast B: ", cats=cats)
+    hs, alive, subs = [h0, h1], [True, True], [[], []]
+    seq_ops, seq_outs = [], []
+    for which, op in case["session"]:
+        if not all(alive):
+            if case.get("share_cats") or not alive[which]:
+                if case.get("share_cats"):
+                    break        # shared objects: a failed operation of one forecast ends the session
+                continue
+        subs[which].append(op)
+        alive[which] = hs[which].step(len(subs[which]) - 1, op)
+        seq_ops.append((which, op))
+        seq_outs.append(hs[which].outs[-1])
+    for h in hs:
+        h.finish()
+    run.case(case, ("session", case["source"], bool(case.get("share_cats")), json.dumps(case["cats"]),
+                    json.dumps(case["session"])))
+    run.count(f"session-{case['source']}" + ("-shared-catalog-objects" if case.get("share_cats") else ""))
+    for f in (h0.fails + h1.fails)[:1]:
+        run.oracle_failure(case, f)
+    if case.get("share_cats") and seq_ops:
+        # one model run for both forecasts: ForecastIter.runShared (theorem shared_session_refines_spec)
+        shown = dict(case, apply_filters=True) if case.get("round4") else case
+        cats = ";".join((",".join(f"{1 if keep_of(shown, ev) else 0}:{bin_of(case, ev)}" for ev in evs) if evs else "-")
+                        for evs in case["cats"])
+        nb = case["nx"] * case["ny"] * len(MAGS)
+        a = "none" if case["source"] == "list" else str(len(case["cats"]))
+        i = drv.ask(f"c13_shared {a} {1 if case['apply_filters'] else 0} {nb} {len(MAGS)} {cats} "
+                    + ",".join(f"{w}:{op}" for w, op in seq_ops))
+        pending.append((case, i, seq_outs, "session", [op for _, op in seq_ops]))
+        return
+    for h, sub in zip(hs, subs):
+        if sub:
+            i = drv.ask(model_line(dict(case, ops=sub)))
+            pending.append((case, i, h.outs, "session", sub))
+
+
+def gen_session(rng, src):
+    w = gen_world4(rng, src, rng.random() < 0.6, rng.random() < 0.5, rng.random() < 0.3)
+    w.pop("ncat_given", None)
+    w["kind"] = "session"
+    if src in ("list", "list-ncat") and rng.random() < 0.5:
+        w["share_cats"] = True
+    pool = OPS + (ALL_TESTS if tests_allowed(w) else [])
+    w["session"] = [[rng.randrange(2), rng.choice(pool if rng.random() < 0.35 else OPS)] for _ in range(rng.randint(3, 8))]
+    return w
+
+
+# ----------------------------------------------------------------------------- sizes beyond 2^16
+def do_big(run, drv, pending, case, tmpdir):
+    """phase 2: catalogs with more than 2^16 events and per-bin counts above 65535 (oracle only: event counts, exact
+    rates k/n, n_cat, marginals); built from constant / tiled numpy data, in memory and through a custom loader"""
+    from csep.core.catalogs import CSEPCatalog
+    from csep.core.forecasts import CatalogForecast
+    region, origins = make_region(case["nx"], case["ny"])
+    ncell = len(origins)
+    sizes = case["sizes"]
+    nbins = ncell * len(MAGS)
+    tot = [0] * nbins
+
+    def catalogs():
+        out = []
+        for ci, n in enumerate(sizes):
+            a = numpy.zeros(n, dtype=CSEPCatalog.dtype)
+            k = numpy.arange(n)
+            cell = (k % ncell) if ci % 2 else numpy.full(n, case["cell"] % ncell)
+            a["id"] = numpy.char.add("e", k.astype(str)).astype("S256") if n else a["id"]
+            a["origin_time"] = 1262304000000 + k
+            a["longitude"] = origins[cell, 0] + 0.05 if n else a["longitude"]
+            a["latitude"] = origins[cell, 1] + 0.05 if n else a["latitude"]
+            a["depth"] = 10.0
+            a["magnitude"] = 5.5
+            out.append(CSEPCatalog(data=a, catalog_id=ci))
+        return out
+    for ci, n in enumerate(sizes):
+        for c in range(ncell):
+            cnt = (len(range(c, n, ncell)) if ci % 2 else (n if c == case["cell"] % ncell else 0))
+            tot[c * len(MAGS) + 1] += cnt
+    nc = len(sizes)
+    if case["source"] == "list":
+        fore = CatalogForecast(catalogs=catalogs(), region=region, name="big")
+    else:
+        def loader(format=None, filename=None, region=None, name=None):
+            for c in catalogs():
+                yield c
+        fore = CatalogForecast(loader=loader, filename="big", store=(case["source"] == "loader-store"), region=region,
+                               name="big")
+    run.case(dict(case), ("big", case["source"], tuple(sizes), tuple(case["ops"])))
+    run.count("sizes beyond 2^16")
+    fails = []
+    for k, op in enumerate(case["ops"]):
+        try:
+            if op == "E":
+                ec = [int(v) for v in numpy.asarray(fore.get_event_counts(verbose=False)).ravel()]
+                if ec != sizes:
+                    fails.append(f"op {k}: get_event_counts {ec}, the catalogs hold {sizes} events")
+            elif op == "P":
+                got = [int(c.event_count) for c in fore]
+                if got != sizes:
+                    fails.append(f"op {k}: a pass yields catalogs with {got} events, the catalogs hold {sizes}")
+            elif op in ("R", "S", "M"):
+                er = fore.get_expected_rates()
+                arr = numpy.asarray(er.data, dtype=float).ravel()
+                want = [t / nc for t in tot]
+                if len(arr) != nbins or any(float(v) != w for v, w in zip(arr, want)):
+                    bad = next((j for j in range(min(len(arr), nbins)) if float(arr[j]) != want[j]), None)
+                    fails.append(f"op {k}: expected rate in bin {bad} is {float(arr[bad]) if bad is not None else arr.shape}, "
+                                 f"the per-bin mean of the catalogs is {want[bad] if bad is not None else nbins}")
+                if op == "S":
+                    sc = numpy.asarray(fore.spatial_counts(), dtype=float).ravel()
+                    ws = [sum(tot[c * len(MAGS):(c + 1) * len(MAGS)]) / nc for c in range(ncell)]
+                    if len(sc) != ncell or any(abs(float(v) - w) > 1e-9 * max(1.0, w) for v, w in zip(sc, ws)):
+                        fails.append(f"op {k}: spatial_counts {sc.tolist()} differ from {ws}")
+                if op == "M":
+                    mc = numpy.asarray(fore.magnitude_counts(), dtype=float).ravel()
+                    wm = [sum(tot[m::len(MAGS)]) / nc for m in range(len(MAGS))]
+                    if len(mc) != len(MAGS) or any(abs(float(v) - w) > 1e-9 * max(1.0, w) for v, w in zip(mc, wm)):
+                        fails.append(f"op {k}: magnitude_counts {mc.tolist()} differ from {wm}")
+            if fore.n_cat != nc:
+                fails.append(f"op {k}: n_cat is {fore.n_cat}, the forecast has {nc} catalogs")
+        except Exception as e:
+            fails.append(f"op {k} ({op}) raised {type(e).__name__}: {e}")
+            break
+    for f in fails[:1]:
+        run.oracle_failure(case, f)
 
 
 # ----------------------------------------------------------------------------- wrong n_cat for an in-memory list
@@ -771,8 +1064,18 @@ def gen_world(rng, src, af, sp):
                 cell = -rng.randint(1, 3)      # outside the region, removed by the spatial filter
             evs.append([cell, rng.choice([4.2, 4.7, 5.5])])
         cats.append(evs)
-    return dict(kind="history", source=src, apply_filters=af, filter_spatial=sp, mag_filter=rng.random() < 0.8,
-                nx=nx, ny=ny, cats=cats, placeholders=[rng.random() < 0.5 for _ in range(ncat)])
+    w = dict(kind="history", source=src, apply_filters=af, filter_spatial=sp, mag_filter=rng.random() < 0.8,
+             nx=nx, ny=ny, cats=cats, placeholders=[rng.random() < 0.5 for _ in range(ncat)])
+    # phase 2: keyword and value classes that ride along with every kind of history
+    if rng.random() < 0.3:
+        w["verbose"] = True            # verbose=True of the evaluations / get_event_counts / get_expected_rates
+    if rng.random() < 0.3:
+        w["seed_mode"] = "global"      # seed=None: the evaluations draw from numpy's global stream
+    if rng.random() < 0.1:
+        w["nan_depth"] = True          # every second event has an unreported (NaN) depth
+    if rng.random() < 0.1:
+        w["zero_time"] = True          # the first event of the forecast happens at epoch 0
+    return w
 
 
 # ----------------------------------------------------------------------------- round 2: what catalogs bring along
@@ -892,7 +1195,8 @@ def gen_ops(rng, w, lo, hi, p_test=0.25):
 
 
 def dispatch(case):
-    return {"aborted": do_aborted, "wrong-ncat": do_wrong_ncat}.get(case.get("kind"), do_history)
+    return {"aborted": do_aborted, "wrong-ncat": do_wrong_ncat, "session": do_session, "big": do_big}.get(
+        case.get("kind"), do_history)
 
 
 def run(run, rng, tier):
@@ -1007,6 +1311,40 @@ def run(run, rng, tier):
             n_4 += 1
         flush(run, drv, pending)
         run.extra["histories_round4_evaluations_ncat_applymct"] = n_4
+        # phase 2: UCERF3 stochastic event sets (.gz / .bin, file versions 1-3, format native / csep, store on / off),
+        # the MLL test with full_calculation=True, sessions of two forecasts sharing sub-objects, sizes beyond 2^16
+        n_5 = 0
+        for src in U3_SOURCES:
+            for af in (False, True):
+                for sp in (False, True):
+                    for _ in range(4 if quick else 60):
+                        w = gen_world4(rng, src, af, sp, rng.random() < 0.3)
+                        w["u3_version"], w["u3_format"] = rng.choice([1, 2, 3]), rng.choice(["native", "csep"])
+                        w["ops"] = gen_ops4(rng, w, 2, 5)
+                        do_history(run, drv, pending, w, tmpdir)
+                        n_5 += 1
+            flush(run, drv, pending)
+        for _ in range(260 if quick else 5000):
+            src = rng.choice(ALL_SOURCES + U3_SOURCES + ["file-nostore", "loader-nostore", "u3gz-nostore", "u3gz-store"])
+            w = gen_world4(rng, src, rng.random() < 0.5, rng.random() < 0.5, rng.random() < 0.3)
+            if src in U3_SOURCES:
+                w["u3_version"], w["u3_format"] = rng.choice([1, 2, 3]), rng.choice(["native", "csep"])
+            L = rng.randint(2, 6)
+            w["ops"] = [rng.choice(["TLF", "TLF", "TL", "TR", "TP"] if rng.random() < 0.4 and tests_allowed(w) else OPS)
+                        for _ in range(L)]
+            do_history(run, drv, pending, w, tmpdir)
+            n_5 += 1
+        flush(run, drv, pending)
+        for _ in range(150 if quick else 3000):
+            do_session(run, drv, pending, gen_session(rng, rng.choice(ALL_SOURCES + U3_SOURCES)), tmpdir)
+            n_5 += 1
+        flush(run, drv, pending)
+        for src in (["list", "loader-store"] if quick else ["list", "loader-store", "loader-nostore"] * 3):
+            do_big(run, drv, pending, dict(kind="big", source=src, nx=2, ny=2, cell=rng.randrange(4),
+                                           sizes=[rng.choice([65536, 65537, 70000]), rng.choice([66000, 131073]), 0],
+                                           ops=[rng.choice(["R", "E", "S"]), "P", rng.choice(["M", "R"]), "E"]), tmpdir)
+            n_5 += 1
+        run.extra["histories_phase2_ucerf3_fullcalc_sessions_sizes"] = n_5
         # deliberate: a pass aborted by an exception (finding, see notes/C13.md)
         for _ in range(16 if quick else 120):
             do_aborted(run, drv, pending, gen_aborted(rng), tmpdir)
